@@ -413,3 +413,26 @@ func (e *Engine) CallResults(call *ast.CallExpr) []*ast.Ident {
 	e.inlined[call] = ids
 	return ids
 }
+
+// InlinePredicates is a mixin: small side-effect-free helpers that compute a boolean or a simple value from their
+// arguments (isKeyword(tok, "asc"), isIdentStart(c), atEOF()) are interpreted in place, so the facts their result
+// stands for are known to the rule. Functions whose call results rules look up as atoms are left alone.
+type InlinePredicates struct{}
+
+var atomFunctions = map[string]bool{"isNotFound": true, "IsInteger": true, "IsValid": true, "canAttachSort": true, "isAlpha": true, "isDigit": true, "isHexDigit": true, "operatorPrecedence": true}
+
+func (InlinePredicates) Inline(e *Engine, call *ast.CallExpr, callee *types.Func, decl *ast.FuncDecl) bool {
+	if atomFunctions[fnName(callee)] || !e.pureModuleFunc(callee) || !smallBody(decl) {
+		return false
+	}
+	sig := callee.Type().(*types.Signature)
+	if sig.Results().Len() == 0 {
+		return false
+	}
+	for i := 0; i < sig.Results().Len(); i++ {
+		if _, basic := sig.Results().At(i).Type().Underlying().(*types.Basic); !basic {
+			return false
+		}
+	}
+	return true
+}
